@@ -402,55 +402,63 @@ class ColorValue(Value):
                 functiontype, raw, check = None, [], ''
                 HSL = False
 
-                for item in seq:
-                    try:
-                        type_ = item.value.type
-                    except AttributeError:
-                        # type of function, e.g. rgb(
-                        if item.type == 'FUNCTION':
-                            functiontype = item.value
-                            HSL = functiontype in ('hsl(', 'hsla(')
-                        continue
+                try:
+                    for item in seq:
+                        try:
+                            type_ = item.value.type
+                        except AttributeError:
+                            # type of function, e.g. rgb(
+                            if item.type == 'FUNCTION':
+                                functiontype = item.value
+                                HSL = functiontype in ('hsl(', 'hsla(')
+                            continue
 
-                    # save components
-                    if type_ == Value.NUMBER:
-                        raw.append(item.value.value)
-                        check += 'N'
-                    elif type_ == Value.PERCENTAGE:
-                        if HSL:
-                            # save as percentage fraction
-                            raw.append(item.value.value / 100.0)
-                        else:
-                            # save as real value of percentage of 255
-                            raw.append(int(255 * item.value.value / 100))
-                        check += 'P'
+                        # save components
+                        if type_ == Value.NUMBER:
+                            raw.append(item.value.value)
+                            check += 'N'
+                        elif type_ == Value.PERCENTAGE:
+                            if HSL:
+                                # save as percentage fraction
+                                raw.append(item.value.value / 100.0)
+                            else:
+                                # save as real value of percentage of 255
+                                raw.append(int(255 * item.value.value / 100))
+                            check += 'P'
 
-                if len(raw) < 3:
-                    # the optional sign makes the productions above accept
-                    # a function with fewer than three components
-                    self._log.error('ColorValue has too few %s) parameters: '
-                                    '%s (N=Number, P=Percentage)' %
-                                    (functiontype, check))
+                    if len(raw) < 3:
+                        # the optional sign makes the productions above accept
+                        # a function with fewer than three components
+                        self._log.error('ColorValue has too few %s) parameters: '
+                                        '%s (N=Number, P=Percentage)' %
+                                        (functiontype, check))
+                        self.wellformed = False
+                        return
+
+                    if HSL:
+                        # convert to rgb
+                        # h is 360 based (circle)
+                        h, s, l_ = raw[0] / 360.0, raw[1], raw[2]
+                        # ORDER h l_ s !!!
+                        r, g, b = colorsys.hls_to_rgb(h, l_, s)
+                        # back to 255 based
+                        rgba = [int(round(r*255)),
+                                int(round(g*255)),
+                                int(round(b*255))]
+
+                        if len(raw) > 3:
+                            rgba.append(raw[3])
+
+                    else:
+                        # rgb, rgba
+                        rgba = raw
+                except (OverflowError, ValueError):
+                    # a component with hundreds of digits: int / int,
+                    # int -> float or round(inf), round(nan) failed
+                    self._log.error('ColorValue: Parameter out of range: %s'
+                                    % self._valuestr(cssText))
                     self.wellformed = False
                     return
-
-                if HSL:
-                    # convert to rgb
-                    # h is 360 based (circle)
-                    h, s, l_ = raw[0] / 360.0, raw[1], raw[2]
-                    # ORDER h l_ s !!!
-                    r, g, b = colorsys.hls_to_rgb(h, l_, s)
-                    # back to 255 based
-                    rgba = [int(round(r*255)),
-                            int(round(g*255)),
-                            int(round(b*255))]
-
-                    if len(raw) > 3:
-                        rgba.append(raw[3])
-
-                else:
-                    # rgb, rgba
-                    rgba = raw
 
                 if len(rgba) < 4:
                     rgba.append(1.0)
